@@ -1293,6 +1293,46 @@ func (st *vC06State) roundTrip(tx *common.SignedTransaction, class string) []byt
 			map[string]any{"class": class, "case": st.caseNo, "fields": vC06Hex(vC06PayloadBlob(&tx.Transaction)), "auth": vC06Hex(vC06AuthBlob(tx))})
 		return nil
 	}
+	// the encoding, the payload encoding and the hash of one value must not depend on the order in which they
+	// are asked for, and bytes handed out earlier must not change afterwards
+	if st.caseNo%2 == 0 {
+		var pm1, pm1c, m1, m1c, pm2, m2, pmR, mR []byte
+		var h1, hR crypto.Hash
+		if p, _, _ := verifkit.Guard(func() {
+			a := st.versioned(tx)
+			switch st.rng.Intn(3) {
+			case 0:
+				pm1 = a.PayloadMarshal()
+				pm1c = bytes.Clone(pm1)
+				m1 = a.Marshal()
+				m1c = bytes.Clone(m1)
+				h1 = a.PayloadHash()
+			case 1:
+				m1 = a.Marshal()
+				m1c = bytes.Clone(m1)
+				pm1 = a.PayloadMarshal()
+				pm1c = bytes.Clone(pm1)
+				h1 = a.PayloadHash()
+			default:
+				pm1 = a.PayloadMarshal()
+				pm1c = bytes.Clone(pm1)
+				h1 = a.PayloadHash()
+				m1 = a.Marshal()
+				m1c = bytes.Clone(m1)
+			}
+			m2, pm2 = a.Marshal(), a.PayloadMarshal()
+			ref := st.versioned(tx)
+			hR = ref.PayloadHash()
+			pmR, mR = ref.PayloadMarshal(), ref.Marshal()
+		}); !p {
+			st.r.Count("call_order_probes", 1)
+			if h1 != hR || !bytes.Equal(pm1, pmR) || !bytes.Equal(pm1c, pmR) || !bytes.Equal(pm2, pmR) || !bytes.Equal(m1, mR) || !bytes.Equal(m1c, mR) || !bytes.Equal(m2, mR) {
+				st.r.Violation("C06|api|result-depends-on-call-order|"+class, "PayloadMarshal / Marshal / PayloadHash of one transaction value give other results depending on the order of the calls (or change bytes handed out earlier)",
+					map[string]any{"class": class, "case": st.caseNo, "encoding": vC06Hex(mR), "hash": hR.String(), "hash_in_this_order": h1.String(),
+						"payload_equal": bytes.Equal(pm1, pmR) && bytes.Equal(pm1c, pmR) && bytes.Equal(pm2, pmR), "encoding_equal": bytes.Equal(m1, mR) && bytes.Equal(m1c, mR) && bytes.Equal(m2, mR)})
+			}
+		}
+	}
 	dec, status := st.observe2(b, class, false)
 	if status == vC06Rejected {
 		st.r.Violation("C06|roundtrip|rejected|"+class, "the decoder rejected the encoding of a structurally valid transaction",
